@@ -657,6 +657,17 @@ func (g *G) figure() string {
 		b.WriteString("</figure>\n")
 		return b.String()
 	}
+	if g.P.Carriers > 0 && g.chance(8, "hiddencap") {
+		// the caption itself is hidden (with or without a link inside): class A
+		g.push("ha")
+		cap := g.hiddenOpen("figcaption") + g.words(g.intn(1, 6, "hcw2"))
+		if g.chance(60, "hiddencaplink") {
+			cap += ` <a href="` + g.url("a") + `">` + g.words(1) + "</a>"
+		}
+		g.pop()
+		b.WriteString(cap + "</figcaption></figure>\n")
+		return b.String()
+	}
 	switch g.weighted("capk", []wc{{"none", 25}, {"text", 40}, {"link", 35}}) {
 	case "text":
 		b.WriteString("<figcaption" + g.at("figcaption") + ">" + g.words(g.intn(1, 12, "fcw")) + g.maybeCarrier("capcar") + "</figcaption>")
